@@ -1,6 +1,6 @@
 """C02 — root hash is the canonical Ethereum MPT root of the contents (DESIGN §5 C02)."""
 from ..report import Report
-from .common import run_hex, replay_hex
+from .common import add_scale, run_hex, replay_hex
 
 replay = replay_hex
 
@@ -51,4 +51,5 @@ def run(tier, seed):
                 sizes.add(int(k.split(":")[1]))
     rep.cov["encoded_node_sizes_met"] = sorted(sizes)
     rep.cov["threshold_sizes_31_32_33_met"] = all(s in sizes for s in (31, 32, 33))
+    add_scale(rep, "C02")
     return rep
